@@ -24,6 +24,8 @@ type SQLColumn struct {
 	// Domain drives the value builder of C05
 	Domain string `json:"domain"`
 	Unique bool   `json:"unique,omitempty"` // single-column UNIQUE comment
+	// FirstTwo: a CHECK directive restricts the column to the first two exported constants of its enum
+	FirstTwo bool `json:"first_two,omitempty"`
 }
 
 type SQLFK struct {
@@ -307,7 +309,7 @@ func (g *sqlGen) column(name string, tableIdx int) (cs colSpec, crudOK bool) {
 		}
 		c.Check, c.Domain = "enum", "enum"
 	case 13: // composite: all-integer struct, local or from the sub-package
-		local := g.sub == nil || g.pr(0.6)
+		local := g.sub == nil || g.pr(0.8)
 		name := g.fresh("Coord")
 		d := &Decl{Name: name, Kind: DStruct}
 		fa, fb := g.pick("int", "int64", "uint8", "int16"), g.pick("int", "uint8", "int32")
@@ -521,6 +523,11 @@ func (g *sqlGen) makePrimaryTable(i int) {
 	t.truth.Primary = idName
 	var cols []colSpec
 	n := 2 + g.r.Intn(6)
+	tiny := g.pr(0.15)
+	if tiny {
+		n = 1 // a table with the id and a single other column
+		g.p.Feature("sql:two-column-table")
+	}
 	for j := 0; j < n; j++ {
 		cs, ok := g.column(fmt.Sprintf("%s%d", g.pick("Title", "Count", "Flag", "Data", "Stamp", "Info", "Score", "Extra"), j), i)
 		if !ok {
@@ -531,13 +538,13 @@ func (g *sqlGen) makePrimaryTable(i int) {
 	}
 	// foreign keys to earlier primary tables
 	for _, prev := range g.tables[:len(g.tables)-1] {
-		if prev.truth.Primary == "" || !g.pr(0.5) {
+		if prev.truth.Primary == "" || !g.pr(0.5) || tiny {
 			continue
 		}
 		cols = append(cols, g.fkColumn(t, prev, len(cols)))
 	}
 	// a foreign key to a table that is not declared in this file (allowed by the tool)
-	if g.pr(0.15) {
+	if g.pr(0.05) && !tiny {
 		f := &Field{Name: "IdOutside", Type: Basic("int64"), Tag: `gomacro-sql-foreign:"Outsider"`}
 		cols = append(cols, colSpec{field: f, col: SQLColumn{Field: "IdOutside", GoType: "int64", Kind: "fk:missing-target", SQLType: "integer", NotNull: true, Domain: "int32",
 			FK: &SQLFK{Target: "Outsider", TargetSQL: "outsiders", KeyType: "int64", ByTag: true}}})
@@ -545,7 +552,7 @@ func (g *sqlGen) makePrimaryTable(i int) {
 		t.truth.CrudOK = false // cannot be exercised against the schema (dangling reference)
 	}
 	// guard
-	if g.pr(0.25) {
+	if g.pr(0.25) && !tiny {
 		enum, lit, member := g.intEnum, g.intEnumVals[0], g.intEnum.Blocks[0].Specs[0].Names[0]
 		if g.pr(0.4) {
 			enum, lit, member = g.strEnum, g.strEnumVals[0], g.strEnum.Blocks[0].Specs[0].Names[0]
@@ -697,6 +704,13 @@ func (g *sqlGen) addDirectives() {
 			continue
 		}
 		pickCol := func() SQLColumn { return cols[g.r.Intn(len(cols))] }
+		// columns usable in UNIQUE constraints: large domains only (no enums)
+		var wide []SQLColumn
+		for _, c := range cols {
+			if !strings.HasPrefix(c.Kind, "enum") {
+				wide = append(wide, c)
+			}
+		}
 		var doc []string
 		if g.pr(0.5) {
 			doc = append(doc, tr.Struct+" is a table of the model.")
@@ -707,8 +721,8 @@ func (g *sqlGen) addDirectives() {
 			g.p.Feature("directive:" + d.Kind)
 		}
 		// single column UNIQUE
-		if g.pr(0.4) {
-			c := pickCol()
+		if g.pr(0.4) && len(wide) > 0 {
+			c := wide[g.r.Intn(len(wide))]
 			if !c.Primary {
 				add(SQLDirective{Kind: "unique-1", Raw: fmt.Sprintf("ADD UNIQUE(%s)", c.Field), Expected: fmt.Sprintf("ALTER TABLE %s ADD UNIQUE(%s);", tr.SQLName, c.Field)})
 				tr.Uniques = append(tr.Uniques, []string{c.Field})
@@ -719,15 +733,15 @@ func (g *sqlGen) addDirectives() {
 				}
 			}
 		}
-		if len(cols) >= 2 && g.pr(0.4) {
-			a, b := cols[0], cols[len(cols)-1]
+		if len(wide) >= 2 && g.pr(0.4) {
+			a, b := wide[0], wide[len(wide)-1]
 			if a.Field != b.Field {
 				sp := g.pick("", " ")
 				add(SQLDirective{Kind: "unique-2", Raw: fmt.Sprintf("ADD UNIQUE%s(%s, %s)", sp, a.Field, b.Field), Expected: fmt.Sprintf("ALTER TABLE %s ADD UNIQUE%s(%s, %s);", tr.SQLName, sp, a.Field, b.Field)})
 				tr.Uniques = append(tr.Uniques, []string{a.Field, b.Field})
 			}
 		}
-		if tr.Primary == "" && len(tr.Columns) >= 2 && g.pr(0.5) {
+		if tr.Primary == "" && len(tr.Columns) >= 2 && g.pr(0.5) && len(tr.Uniques) == 0 {
 			a, b := tr.Columns[0].Field, tr.Columns[1].Field
 			if !tr.Columns[0].FK.Nullable && !tr.Columns[1].FK.Nullable {
 				add(SQLDirective{Kind: "primary-key-2", Raw: fmt.Sprintf("ADD PRIMARY KEY (%s, %s)", a, b), Expected: fmt.Sprintf("ALTER TABLE %s ADD PRIMARY KEY (%s, %s);", tr.SQLName, a, b)})
@@ -759,6 +773,11 @@ func (g *sqlGen) addDirectives() {
 				ph2, lit2, cm2 := g.enumPlaceholder(c, 1)
 				add(SQLDirective{Kind: "check-" + c.Kind, Raw: fmt.Sprintf("ADD CHECK (%s = %s OR %s = %s)", c.Field, ph, c.Field, ph2),
 					Expected: fmt.Sprintf("ALTER TABLE %s ADD CHECK (%s = %s /* %s */ OR %s = %s /* %s */);", tr.SQLName, c.Field, lit, cm, c.Field, lit2, cm2)})
+				for i := range tr.Columns {
+					if tr.Columns[i].Field == c.Field {
+						tr.Columns[i].FirstTwo = true
+					}
+				}
 				break
 			}
 		}
